@@ -75,6 +75,23 @@ class _Names(ast.NodeVisitor):
         self.generic_visit(node)
 
 
+class _ContinueToReturn(ast.NodeTransformer):
+    """`continue` at the level of the prange body ends that iteration: in the body function it is a `return`.
+    Inner loops keep their own continue/break."""
+
+    def visit_For(self, node):
+        return node
+
+    visit_While = visit_For
+    visit_FunctionDef = visit_For
+
+    def visit_Continue(self, node):
+        return ast.copy_location(ast.Return(value=None), node)
+
+    def visit_Break(self, node):
+        raise Unsupported("break out of a prange loop")
+
+
 def rewrite(kernel):
     """-> (python function taking (sched, *args), info dict)"""
     py = getattr(kernel, "py_func", kernel)
@@ -108,7 +125,7 @@ def rewrite(kernel):
                 new_body.append(ast.parse(f"{name} = __sched.wrap({name}, {name!r}, {name in nv.sub_written})").body[0])
             body_fn = ast.FunctionDef(
                 name=f"__body_{k}", args=ast.arguments(posonlyargs=[], args=[ast.arg(arg=stmt.target.id)], kwonlyargs=[], kw_defaults=[], defaults=[]),
-                body=stmt.body, decorator_list=[], returns=None, type_params=[],
+                body=[_ContinueToReturn().visit(b) for b in stmt.body], decorator_list=[], returns=None, type_params=[],
             )
             new_body.append(body_fn)
             call = ast.parse(f"__sched.parallel_for(__body_{k}, {k})").body[0]
